@@ -17,6 +17,9 @@ import (
 // the recorded fault-free encoding is failed in turn.
 
 type recWriter struct {
+	// during runs before each Write's bytes are looked at: whatever else the program does while this
+	// Write is in progress (another goroutine encoding another message) must not change them
+	during   func()
 	writes   [][]byte
 	failAt   int // index of the failing Write (-1: never)
 	accept   int // bytes of the failing Write that are accepted
@@ -30,6 +33,9 @@ func (w *recWriter) Write(p []byte) (int, error) {
 	if w.failed {
 		w.after++
 		return 0, w.err
+	}
+	if w.during != nil {
+		w.during()
 	}
 	idx := len(w.writes)
 	w.writes = append(w.writes, append([]byte(nil), p...))
@@ -187,10 +193,25 @@ func runEncodeWorld(rc *RunCtx) (out *Outcome) {
 		o.Sample = map[string]any{"ops": shown}
 	}()
 
+	// Some runs encode a second message while each Write of the first is in progress: what another
+	// goroutine may do at that moment, played on one goroutine so that it is repeatable. Messages
+	// share nothing, so this must change nothing.
+	var during func()
+	if ch.Chance(1, 5, "another message is encoded during every Write") {
+		other, _ := genMessage(ch)
+		other.AppendData("zz")
+		other.ID = sse.ID("99")
+		other.AppendComment("other")
+		during = func() {
+			_, _ = other.WriteTo(io.Discard)
+			_ = other.String()
+		}
+		o.probe("another message encoded while a Write was in progress")
+	}
 	// fault-free encoding with its Write boundaries
 	shape := ch.Weighted([]int{3, 1, 1, 1}, "writer shape")
 	desc += " -> " + writerShapes[shape]
-	base := &recWriter{failAt: -1}
+	base := &recWriter{failAt: -1, during: during}
 	n, err := m.WriteTo(shapedWriter(base, shape))
 	full := base.accepted
 	if err != nil || int(n) != len(full) {
@@ -278,7 +299,7 @@ func runEncodeWorld(rc *RunCtx) (out *Outcome) {
 		for a := range counts {
 			points++
 			injected := newInjected(fmt.Sprintf("write#%d after %d bytes", k, a))
-			fw := &recWriter{failAt: k, accept: a, err: injected}
+			fw := &recWriter{failAt: k, accept: a, err: injected, during: during}
 			n, err := m.WriteTo(shapedWriter(fw, shape))
 			o.fault("writer fails at a Write call")
 			where := fmt.Sprintf("message %s, Write #%d (%q) accepting %d bytes", desc, k, wr, a)
